@@ -53,7 +53,7 @@ inductive Fail where
   | subEmpty | subLong | subHost | subGrammar | subStale | subEphemeral | subForeign
   | noPrevious | nil | index | insufficient | invalidCoins | supplyRange | badAddress
   | basic | unknownAddress | depositShort | depositLock | depositUnknownRealm | depositPanic
-  | paramKey | fuel
+  | paramKey | fuel | issueInvalid
 deriving DecidableEq, Repr
 
 def Fail.token : Fail → String
@@ -66,7 +66,7 @@ def Fail.token : Fail → String
   | .subGrammar => "err:sub-grammar" | .subStale => "err:sub-stale" | .subEphemeral => "err:sub-ephemeral"
   | .subForeign => "err:sub-foreign" | .noPrevious => "err:no-previous" | .nil => "err:nil"
   | .index => "err:index" | .insufficient => "err:insufficient" | .invalidCoins => "err:invalid-coins"
-  | .supplyRange => "err:supply-range" | .badAddress => "err:bad-address" | .basic => "err:basic"
+  | .supplyRange => "err:issue-rejected" | .issueInvalid => "err:issue-rejected" | .badAddress => "err:bad-address" | .basic => "err:basic"
   | .unknownAddress => "err:unknown-address" | .depositShort => "err:deposit-short"
   | .depositLock => "err:deposit-lock" | .depositUnknownRealm => "err:deposit-unknown-realm"
   | .depositPanic => "err:deposit-panic" | .paramKey => "err:param-key" | .fuel => "err:fuel"
@@ -139,15 +139,17 @@ def sendUnrestricted (b : Bank) (src dst : Addr) (cs : Coins) (c : Cause) : Exce
 def sendCoins (b : Bank) (src dst : Addr) (cs : Coins) (c : Cause) : Except Fail Bank :=
   if coinsIsZero cs then .ok b else sendUnrestricted b src dst cs c
 
-/-- `MintCoins` of ONE coin (what `SDKBanker.IssueCoin` passes). -/
+/-- `MintCoins` of ONE coin (what `SDKBanker.IssueCoin` passes).  `validateIssuance` and the
+    supply-range error are plain `fmt.Errorf` values: the keeper's bounded panic rendering
+    shows both as the same opaque text, hence one canonical token for the two classes. -/
 def mintCoin (b : Bank) (a : Addr) (d : Str) (x : Int) (c : Cause) : Except Fail Bank :=
-  if !coinsValid [⟨d, x⟩] then .error .invalidCoins
+  if !coinsValid [⟨d, x⟩] then .error .issueInvalid
   else if maxInt64 < b.led.supply d + x then .error .supplyRange
   else .ok { (b.move a d x c) with led := (b.move a d x c).led.setSupply d (b.led.supply d + x) }
 
 /-- `BurnCoins` of ONE coin. -/
 def burnCoin (b : Bank) (a : Addr) (d : Str) (x : Int) (c : Cause) : Except Fail Bank :=
-  if !coinsValid [⟨d, x⟩] then .error .invalidCoins
+  if !coinsValid [⟨d, x⟩] then .error .issueInvalid
   else if b.led.supply d - x < 0 then .error .supplyRange
   else if b.led.bal a d < x then .error .insufficient
   else .ok { (b.move a d (-x) c) with led := (b.move a d (-x) c).led.setSupply d (b.led.supply d - x) }
@@ -721,7 +723,7 @@ def step (ch : Chain) (w : World) : Msg → Except Fail Outcome
       let st ← exec env fuel0 { owner := rp, me := some t, arg := none, bk := none, cb := none, stack := [t] } none prog st
       finish w (.user signer) maxDeposit st
   | .bankSend signer dst amt =>
-    if !coinsValid amt then .error .basic
+    if !coinsValid amt || amt.isEmpty then .error .basic
     else
       let env := ch.env []
       match env.resolve dst with
